@@ -124,9 +124,18 @@ func implC09(line string) (res string) {
 	if f[0] == "seq" {
 		return implSeq(f[1], f[2], f[3:])
 	}
+	if f[0] == "plus" || f[0] == "eqpair" {
+		return implPair(f[0], f[1], f[2])
+	}
 	op, rt, args := f[0], f[1], f[2:]
 	vm := vmPool.Get().(*otto.Otto)
 	healthy := true
+	if strings.HasPrefix(rt, "T") {
+		// String.prototype.toString is replaced: use a runtime of its own and never pool it
+		vmPool.Put(vm)
+		vm = otto.New()
+		healthy = false
+	}
 	defer func() {
 		if r := recover(); r != nil {
 			res = "panic"
@@ -162,6 +171,8 @@ func implC09(line string) (res string) {
 			src = "r[a0]"
 		case how == "M":
 			src = "r." + op + "(" + al + ")"
+		case how == "T":
+			src = `String.prototype.toString = function () { return "zzz" }; r.` + op + "(" + al + ")"
 		case how == "C":
 			if al != "" {
 				al = "," + al
@@ -183,6 +194,40 @@ func implC09(line string) (res string) {
 			return "throw:" + strings.ReplaceAll(msg, " ", "_")
 		}
 		return "error:" + strings.ReplaceAll(err.Error(), " ", "_")
+	}
+	return resTok(vm, op, v)
+}
+
+// implPair: `plus w:<a> w:<b>` is a + b, `eqpair` is (a + b) === String.fromCharCode(a…, b…), for []uint16 strings.
+func implPair(op, ta, tb string) (res string) {
+	vm := otto.New()
+	defer func() {
+		if r := recover(); r != nil {
+			res = "panic"
+		}
+	}()
+	lit := func(tok string) string {
+		var args []string
+		p := strings.TrimPrefix(tok, "w:")
+		for j := 0; j+4 <= len(p); j += 4 {
+			args = append(args, "0x"+p[j:j+4])
+		}
+		return strings.Join(args, ",")
+	}
+	src := "String.fromCharCode(" + lit(ta) + ") + String.fromCharCode(" + lit(tb) + ")"
+	if op == "eqpair" {
+		both := lit(ta)
+		if lit(tb) != "" {
+			if both != "" {
+				both += ","
+			}
+			both += lit(tb)
+		}
+		src = "(" + src + ") === String.fromCharCode(" + both + ")"
+	}
+	v, tok := runTok(vm, src)
+	if tok != "" {
+		return tok
 	}
 	return resTok(vm, op, v)
 }
@@ -741,6 +786,36 @@ func genC09(c *h.Ctx) {
 				c.Add("ownnames Mw:"+w, "ownnames:w")
 				c.Add("hasown Cw:"+w+" "+h.BytesTok("1"), "hasown:w")
 			}
+		}
+	}
+	// (3e) member calls with String.prototype.toString replaced (how T), and + / === on []uint16 strings
+	{
+		for i := 0; i < c.N(150, 6000); i++ {
+			s := c09Fixed[r.Intn(len(c09Fixed))]
+			if r.Chance(50) {
+				s = randString(r, 6)
+			}
+			hx := hex.EncodeToString([]byte(s))
+			n := unitLen(s)
+			for _, rt := range []string{"Ts:" + hx, "TS:" + hx} {
+				c.Add("charAt "+rt+" "+randPos(r, n), "override:charAt")
+				c.Add("charCodeAt "+rt+" "+randPos(r, n), "override:charCodeAt")
+				c.Add("slice "+rt+" "+randPos(r, n)+" "+randPos(r, n), "override:slice")
+				c.Add("substr "+rt+" "+randPos(r, n), "override:substr")
+				c.Add("indexOf "+rt+" "+randNeedle(r, s), "override:indexOf")
+				c.Add("concat "+rt+" "+h.BytesTok("d"), "override:concat")
+				c.Add("trim "+rt, "override:trim")
+				c.Add("toUpperCase "+rt, "override:toUpperCase")
+				c.Add("split "+rt+" "+h.BytesTok(""), "override:split")
+				c.Add("localeCompare "+rt+" "+h.BytesTok("zzz"), "override:localeCompare")
+			}
+			c.Add("concat Tw:"+randUnits(r, 4), "override:w")
+			c.Add("plus w:"+randUnits(r, 3)+" w:"+randUnits(r, 3), "plus")
+			c.Add("eqpair w:"+randUnits(r, 3)+" w:"+randUnits(r, 3), "eqpair")
+		}
+		for _, p := range [][2]string{{"d83d", "de00"}, {"d83d", "0061"}, {"0061", "de00"}, {"0061", "0062"}, {"d83dde00", "0061"}, {"de00", "d83d"}, {"fffd", "0061"}} {
+			c.Add("plus w:"+p[0]+" w:"+p[1], "plus")
+			c.Add("eqpair w:"+p[0]+" w:"+p[1], "eqpair")
 		}
 	}
 	// (3d) order of conversions: scripted receivers and arguments
